@@ -13,6 +13,24 @@ Shape(CT, ev) ==
   ELSE IF DependentParam(CT, ev.T) THEN "DependentParam"
   ELSE IF TextualDiffers(CT, ev.T) \/ \E r \in NonSubtypes(CT, ev.T, Rng(ev.res)) : TextualDiffers(CT, r) THEN "TextualSupertypes"
   ELSE "plain"
+\* known-finding shapes for instantiation:
+\* DependentRequest - the caller requests an assignment for a parameter that is tied to another one by a bound (its own bound
+\*   mentions a parameter, or another parameter's bound mentions it); the helper then rewrites the other assignments
+\*   (update_type_var_bound_rec) in ways the contract does not allow;
+\* BoundChain (F14) - no such request, but the declaration has a parameter that is both bounded by a parameter and mentioned in a
+\*   later bound (T3 : T2 : T1): the helper's inner loop reuses the index variable and projections land on mentioned parameters
+Tied(tps, i) == (tps[i].b # <<>> /\ FreeVars(tps[i].b[1]) # {}) \/ MentionedByOther(tps, i)
+InstShape(ev, args) ==
+  IF \E i \in DOMAIN ev.tps : ev.tps[i].n \in DOMAIN ev.pre /\ Tied(ev.tps, i) THEN "DependentRequest"
+  ELSE IF \E i \in DOMAIN ev.tps : ev.tps[i].b # <<>> /\ FreeVars(ev.tps[i].b[1]) # {} /\ MentionedByOther(ev.tps, i) THEN "BoundChain"
+  ELSE "plain"
+\* When the caller's request targets a tied parameter the helper rewrites the other assignments to fit (and what "kept when
+\* consistent with the bounds" means is not determined by the statement); there only the clauses that do not depend on the
+\* request are judged.
+InstJudged(CT, ev, o) ==
+  LET b == InstBad(CT, ev.tps, ev.pre, ev.choices, ev.sw, ev.outs[o].args, ev.outs[o].map) IN
+  IF InstShape(ev, ev.outs[o].args) = "DependentRequest"
+  THEN b \cap {"OneArgumentPerParameter", "NoPrimitiveOrBareArgument", "SwitchesDeep", "MapConsistent"} ELSE b
 BadEvent(CT, ev) ==
   CASE ev.kind = "find_subtypes" ->
          {<<cl, Shape(CT, ev)>> : cl \in FindSubtypesBad(CT, ev.T, Rng(ev.res), ev.include_self, ev.concrete_only, ev.self_in)}
@@ -20,11 +38,15 @@ BadEvent(CT, ev) ==
          {<<cl, IF ev.T.k = "P" THEN "Primitive"
                 ELSE IF TextualDiffers(CT, ev.T) \/ \E r \in Related(CT, ev.T, Rng(ev.res)) : TextualDiffers(CT, r) THEN "TextualSupertypes"
                 ELSE "plain">> : cl \in FindIrrelevantBad(CT, ev.T, Rng(ev.res), ev.saw_none)}
+    [] ev.kind = "instantiate" ->
+         UNION {{<<cl, InstShape(ev, ev.outs[o].args)>> : cl \in InstJudged(CT, ev, o)} : o \in DOMAIN ev.outs}
     [] OTHER -> {}
 ExcBad(CT, ev) == IF ev.exc # <<>> THEN {<<"NoException", IF ev.kind \in {"find_subtypes", "find_irrelevant"} THEN Shape(CT, ev) ELSE "plain">>} ELSE {}
 Offending(CT, ev) ==
   CASE ev.kind = "find_subtypes" -> NonSubtypes(CT, ev.T, Rng(ev.res))
     [] ev.kind = "find_irrelevant" -> Related(CT, ev.T, Rng(ev.res))
+    [] ev.kind = "instantiate" ->
+         UNION {{<<cl, ev.outs[o].args>> : cl \in InstJudged(CT, ev, o)} : o \in DOMAIN ev.outs}
     [] OTHER -> {}
 Report == LET ev == Cases[c].events[e]  b == BadEvent(Cases[c].ct, ev) \cup ExcBad(Cases[c].ct, ev) IN
           b = {} \/ PrintT(ToJson([case |-> Cases[c].id, event |-> e, bad |-> b, off |-> Offending(Cases[c].ct, ev)]))
